@@ -97,7 +97,9 @@ func (p *Peers) Pop() *WebRTCPeer {
 			continue
 		}
 		// Set to use the same rate-limited traffic logger to keep consistency.
+		snowflake.mu.Lock()
 		snowflake.bytesLogger = p.bytesLogger
+		snowflake.mu.Unlock()
 		return snowflake
 	}
 }
